@@ -169,9 +169,10 @@ def inject_fault(ws: typing.Any, fault: typing.Any) -> typing.Tuple[typing.Any, 
         return ws, {"carriers": {c}, "kind": kind}
     if kind == "missing-relative-namesake":
         # a reference without namespace to a short name that exists only in *other* namespaces: unresolvable
-        here = (carrier["root"], tuple(carrier["ns"]))
-        cands = [j for j, x in enumerate(defs) if (x["root"], tuple(x["ns"])) != here
-                 and not any((y["root"], tuple(y["ns"])) == here and y["short"] == x["short"] and y["version"] == x["version"] for y in defs)]
+        rn = lambda x: ws["roots"][x["root"]]["name"]  # several directories of one name are one namespace
+        here = (rn(carrier), tuple(carrier["ns"]))
+        cands = [j for j, x in enumerate(defs) if (rn(x), tuple(x["ns"])) != here
+                 and not any((rn(y), tuple(y["ns"])) == here and y["short"] == x["short"] and y["version"] == x["version"] for y in defs)]
         if not cands:
             return ws, None
         j = cands[fault["other"] % len(cands)]
